@@ -11,17 +11,19 @@ git apply $S/patch.diff
 # 1. whole suite with the change
 cargo test --workspace --no-fail-fast --offline -j6 >> $LOG 2>&1; SUITE=$?
 PASSED=$(grep -E '^test result' $LOG | awk '{s+=$4} END {print s}'); FAILED=$(grep -E '^test result' $LOG | awk '{s+=$6} END {print s}')
-# place demo
-for f in $S/demo/*.rs; do cp $f sudachi/tests/; done
+# place demo (a demonstration of the command-line tool goes under sudachi-cli/tests)
+PKG=sudachi; TD=sudachi/tests
+if grep -q "sudachi-cli/tests" $S/demo/RUN.txt 2>/dev/null; then PKG=sudachi-cli; TD=sudachi-cli/tests; mkdir -p $TD; fi
+for f in $S/demo/*.rs; do cp $f $TD/; done
 [ -d $S/demo/resources ] && cp -r $S/demo/resources/* sudachi/tests/resources/
 for f in $S/demo/*.csv $S/demo/*.def $S/demo/*.json; do [ -f "$f" ] && cp $f sudachi/tests/resources/; done
 DEMO_WITH=0
-for f in $S/demo/*.rs; do st=$(basename $f .rs); cargo test -p sudachi --offline -j6 --test $st >> $LOG 2>&1 || DEMO_WITH=1; done
+for f in $S/demo/*.rs; do st=$(basename $f .rs); cargo test -p $PKG --offline -j6 --test $st >> $LOG 2>&1 || DEMO_WITH=1; done
 # 3. demo without the change
 git apply -R $S/patch.diff
 DEMO_WITHOUT=0
-for f in $S/demo/*.rs; do st=$(basename $f .rs); cargo test -p sudachi --offline -j6 --test $st >> $LOG 2>&1 || DEMO_WITHOUT=1; done
-git checkout -q -- . ; git clean -fdq sudachi 2>/dev/null
+for f in $S/demo/*.rs; do st=$(basename $f .rs); cargo test -p $PKG --offline -j6 --test $st >> $LOG 2>&1 || DEMO_WITHOUT=1; done
+git checkout -q -- . ; git clean -fdq sudachi sudachi-cli 2>/dev/null
 echo "$PID-$N: suite_exit=$SUITE passed=$PASSED failed=$FAILED demo_with_change_failed=$DEMO_WITH demo_without_change_failed=$DEMO_WITHOUT"
 if [ $SUITE -eq 0 ] && [ "$FAILED" = "0" ] && [ $DEMO_WITH -eq 1 ] && [ $DEMO_WITHOUT -eq 0 ]; then
   D=/verif/seeded/$PID-$N; mkdir -p $D; cp $S/patch.diff $D/; rm -rf $D/demo; cp -r $S/demo $D/demo
